@@ -55,7 +55,7 @@ def validate_frame_tables(ctx, rid):
     # the 'first frame' flag: set_first_frame returns the previous value and sets true
     f = ctx.A.fn("wtransport_proto::stream::types::H3::set_first_frame")
     ps = nonpanic(walk(f))
-    okk = len(ps) == 1 and re.match(r"^return replace\(&\*?self\.1,1\)$", leaf_str(ps[0].leaf)) is not None
+    okk = len(ps) == 1 and re.match(r"^return replace\(&\*?self\.first_frame_done,1\)$", leaf_str(ps[0].leaf)) is not None
     ctx.check(rid, "H3::set_first_frame", okk,
               "H3::set_first_frame is no longer `mem::replace(&mut self.first_frame_done, true)`: %s" % [leaf_str(p.leaf) for p in ps],
               where(f))
@@ -133,7 +133,7 @@ def from_buffer_commit(ctx, rid):
     fc = ctx.A.fn("wtransport_proto::bytes::BufferReaderChild::commit")
     ps = nonpanic(walk(fc))
     evs = [e for p in ps for e in event_strs(p)]
-    okk = any(re.match(r"^BufferReader::skip\(self\.1,BufferReader::offset\(&self\.0\)\)$", e) for e in evs)
+    okk = any(re.match(r"^BufferReader::skip\(self\.parent,BufferReader::offset\(&self\.reader\)\)$", e) for e in evs)
     ctx.check(rid, "BufferReaderChild::commit", okk,
               "BufferReaderChild::commit no longer does `parent.skip(child.offset())`: %s" % evs, where(fc))
     ctx.floor(rid, "commit-or-drop wrappers", n, 6)
@@ -149,7 +149,7 @@ def uni_upgrade_maps(ctx, rid):
     rows = [
         {"name": "None->stay Quic", "atoms": [r"^\(%s as Ok\)\.0 is None$" % S], "leaf": r"^return Result::Ok\(MaybeUpgradeH3::Quic\(self\)\)$"},
         {"name": "Some->H3", "atoms": [r"^\(%s as Ok\)\.0 is Some$" % S],
-         "leaf": r"^return Result::Ok\(MaybeUpgradeH3::H3\(stream::Stream\(self\.0,H3::new\(Option::Some\(\(\(%s as Ok\)\.0 as Some\)\.0\)\)\)\)\)$" % S},
+         "leaf": r"^return Result::Ok\(MaybeUpgradeH3::H3\(stream::Stream\(self\.kind,H3::new\(Option::Some\(\(\(%s as Ok\)\.0 as Some\)\.0\)\)\)\)\)$" % S},
         {"name": "UnknownStream", "atoms": [r"^\(%s as Err\)\.0 is UnknownStream$" % S], "leaf": r"^return Result::Err\(ErrorCode::%s\)$" % m["UnknownStream"]},
         {"name": "InvalidSessionId", "atoms": [r"^\(%s as Err\)\.0 is InvalidSessionId$" % S], "leaf": r"^return Result::Err\(ErrorCode::%s\)$" % m["InvalidSessionId"]},
     ]
@@ -158,7 +158,7 @@ def uni_upgrade_maps(ctx, rid):
     R = r"await\(StreamHeader::read_async\(&\*reader\)\)"
     rows = [
         {"name": "Ok->H3", "atoms": [r"^%s is Ok$" % R],
-         "leaf": r"^return Result::Ok\(stream::Stream\(self\.0,H3::new\(Option::Some\(\(%s as Ok\)\.0\)\)\)\)$" % R},
+         "leaf": r"^return Result::Ok\(stream::Stream\(self\.kind,H3::new\(Option::Some\(\(%s as Ok\)\.0\)\)\)\)$" % R},
         {"name": "UnknownStream", "atoms": [r"^\(\(%s as Err\)\.0 as Parse\)\.0 is UnknownStream$" % R],
          "leaf": r"^return Result::Err\(stream::IoReadError::H3\(ErrorCode::%s\)\)$" % m["UnknownStream"]},
         {"name": "InvalidSessionId", "atoms": [r"^\(\(%s as Err\)\.0 as Parse\)\.0 is InvalidSessionId$" % R],
@@ -270,13 +270,13 @@ def settings_runner_tables(ctx, rid):
     A = ctx.A
     fn = _t(A, r"^wtransport::driver::streams::settings::RemoteSettingsStream::run::\{closure#0\}$")
     RF = r"await\(RemoteSettingsStream::read_frame\(&\*self\)\)"
-    NONE = r"Option::is_none\(&Sender::borrow\(&\*self\.1\)\)"
+    NONE = r"Option::is_none\(&Sender::borrow\(&\*self\.settings\)\)"
     rows = [
         {"name": "after-settings/GREASE->continue", "atoms": [r"^!%s$" % NONE, r" is Exercise$"], "leaf": r"^continue$"},
         {"name": "after-settings/other->FrameUnexpected", "atoms": [r"^!%s$" % NONE, r" isnot Exercise$"],
          "leaf": r"^return DriverError::Proto\(ErrorCode::FrameUnexpected\)$"},
         {"name": "first/SETTINGS ok->publish", "atoms": [r"^%s$" % NONE, r" is Settings$", r"^Settings::with_frame\(.*\) is Ok$"],
-         "events": [r"^Sender::send_replace\(&\*self\.1,Option::Some\(\(Settings::with_frame\(&\(%s as Ok\)\.0\) as Ok\)\.0\)\)$" % RF], "leaf": r"^continue$"},
+         "events": [r"^Sender::send_replace\(&\*self\.settings,Option::Some\(\(Settings::with_frame\(&\(%s as Ok\)\.0\) as Ok\)\.0\)\)$" % RF], "leaf": r"^continue$"},
         {"name": "first/SETTINGS malformed->its code", "atoms": [r"^%s$" % NONE, r" is Settings$", r"^Settings::with_frame\(.*\) is Err$"],
          "leaf": r"^return DriverError::Proto\(\(Settings::with_frame\(&\(%s as Ok\)\.0\) as Err\)\.0\)$" % RF},
         {"name": "first/not SETTINGS->MissingSettings", "atoms": [r"^%s$" % NONE, r" isnot Settings$"],
@@ -285,9 +285,9 @@ def settings_runner_tables(ctx, rid):
     ]
     match_table(ctx, rid, fn, walk(fn), rows, "RemoteSettingsStream::run")
     fn = _t(A, r"^wtransport::driver::streams::settings::RemoteSettingsStream::read_frame::\{closure#0\}$")
-    R = r"await\(<impl .*?>::read_frame\(&\*\(Option::as_mut\(&\*self\.0\) as Some\)\.0\)\)"
+    R = r"await\(<impl .*?>::read_frame\(&\*\(Option::as_mut\(&\*self\.stream\) as Some\)\.0\)\)"
     rows = [
-        {"name": "no stream->pending", "atoms": [r"^Option::as_mut\(&\*self\.0\) is None$"], "leaf": r"^pending$"},
+        {"name": "no stream->pending", "atoms": [r"^Option::as_mut\(&\*self\.stream\) is None$"], "leaf": r"^pending$"},
         {"name": "Ok", "atoms": [r"^%s is Ok$" % R], "leaf": r"^return Result::Ok\(\(%s as Ok\)\.0\)$" % R},
         {"name": "H3(code)->Proto(code)", "atoms": [r" is H3$"], "leaf": r"^return Result::Err\(DriverError::Proto\(\(\(%s as Err\)\.0 as H3\)\.0\)\)$" % R},
         {"name": "ImmediateFin->ClosedCriticalStream", "atoms": [r" is ImmediateFin$"], "leaf": r"^return Result::Err\(DriverError::Proto\(ErrorCode::ClosedCriticalStream\)\)$"},
@@ -302,7 +302,7 @@ def qpack_runner_tables(ctx, rid):
     for nm in ("RemoteQPackEncStream", "RemoteQPackDecStream"):
         fn = _t(ctx.A, r"^wtransport::driver::streams::qpack::%s::run::\{closure#0\}$" % nm)
         rows = [
-            {"name": "no stream->pending", "atoms": [r"^Option::as_mut\(&\*self\.0\) is None$"], "leaf": r"^pending$"},
+            {"name": "no stream->pending", "atoms": [r"^Option::as_mut\(&\*self\.stream\) is None$"], "leaf": r"^pending$"},
             {"name": "64 bytes discarded->loop", "atoms": [r"^await\(QuicRecvStream::read_exact\(.*\)\) is Ok$"], "leaf": r"^continue$"},
             {"name": "FinishedEarly->ClosedCriticalStream", "atoms": [r" is FinishedEarly$"], "leaf": r"^return DriverError::Proto\(ErrorCode::ClosedCriticalStream\)$"},
             {"name": "NotConnected", "atoms": [r" is NotConnected$"], "leaf": r"^return DriverError::NotConnected$"},
@@ -315,7 +315,7 @@ def qpack_runner_tables(ctx, rid):
 def local_settings_run_table(ctx, rid):
     fn = _t(ctx.A, r"^wtransport::driver::streams::settings::LocalSettingsStream::run::\{closure#0\}$")
     rows = [
-        {"name": "no stream->pending", "atoms": [r"^Option::as_mut\(&\*self\.0\) is None$"], "leaf": r"^pending$"},
+        {"name": "no stream->pending", "atoms": [r"^Option::as_mut\(&\*self\.stream\) is None$"], "leaf": r"^pending$"},
         {"name": "NotConnected", "atoms": [r" is NotConnected$"], "leaf": r"^return DriverError::NotConnected$"},
         {"name": "Closed->ClosedCriticalStream", "atoms": [r" is Closed$"], "leaf": r"^return DriverError::Proto\(ErrorCode::ClosedCriticalStream\)$"},
         {"name": "Stopped->ClosedCriticalStream", "atoms": [r" is Stopped$"], "leaf": r"^return DriverError::Proto\(ErrorCode::ClosedCriticalStream\)$"},
@@ -331,7 +331,7 @@ def handle_uni_table(ctx, rid):
         rows.append({"name": "%s duplicate->StreamCreation" % kind, "atoms": [r"::kind\(&stream\) is %s$" % kind, r"^!%s::is_empty\(" % holder],
                      "not_events": [r"set_stream"], "leaf": r"^return Result::Err\(DriverError::Proto\(ErrorCode::StreamCreation\)\)$"})
         rows.append({"name": "%s first->stored" % kind, "atoms": [r"::kind\(&stream\) is %s$" % kind, r"^%s::is_empty\(" % holder],
-                     "events": [r"^%s::set_stream\(&\*self\.\d+,stream\)$" % holder], "leaf": r"^return Result::Ok\(\(\)\)$"})
+                     "events": [r"^%s::set_stream\(&\*self\.\w+,stream\)$" % holder], "leaf": r"^return Result::Ok\(\(\)\)$"})
     rows.append({"name": "GREASE stream->ignored", "atoms": [r"::kind\(&stream\) is Exercise$"], "not_events": [r"set_stream"], "leaf": r"^return Result::Ok\(\(\)\)$"})
     paths = walk(fn)
     match_table(ctx, rid, fn, paths, rows, "Worker::handle_uni_h3_stream")
@@ -372,12 +372,125 @@ def worker_run_table(ctx, rid):
     """Worker::run: the stored error is exactly run_impl's; QUIC close code = error_code.to_code()"""
     fn = _t(ctx.A, r"^wtransport::driver::worker::Worker::run::\{closure#0\}$")
     E = r"Result::expect_err\(await\(Worker::run_impl\(&self\)\),[^()]*\)"
-    SET = r"^SharedResultSet::set\(&self\.\d+,%s\)$" % E
+    SET = r"^SharedResultSet::set\(&self\.driver_result,%s\)$" % E
     rows = [
         {"name": "Proto(code)->close(code.to_code()), store", "atoms": [r"^%s is Proto$" % E],
-         "events": [r"^Connection::close\(&self\.0,varint_w2q\(ErrorCode::to_code\(\(%s as Proto\)\.0\)\)," % E, SET], "leaf": r"^return \(\)$"},
+         "events": [r"^Connection::close\(&self\.quic_connection,varint_w2q\(ErrorCode::to_code\(\(%s as Proto\)\.0\)\)," % E, SET], "leaf": r"^return \(\)$"},
         {"name": "ApplicationClosed->close(NoError), store", "atoms": [r"^%s is ApplicationClosed$" % E],
-         "events": [r"^Connection::close\(&self\.0,varint_w2q\(ErrorCode::to_code\(ErrorCode::NoError\)\),", SET], "leaf": r"^return \(\)$"},
+         "events": [r"^Connection::close\(&self\.quic_connection,varint_w2q\(ErrorCode::to_code\(ErrorCode::NoError\)\),", SET], "leaf": r"^return \(\)$"},
         {"name": "NotConnected->no close, store", "atoms": [r"^%s is NotConnected$" % E], "not_events": [r"Connection::close"], "events": [SET], "leaf": r"^return \(\)$"},
     ]
     match_table(ctx, rid, fn, walk(fn), rows, "Worker::run")
+
+
+# ------------------------------------------------------------------ Driver waiters / filters
+
+DRV = r"^wtransport::driver::Driver::%s::\{closure#0\}$"
+
+
+def driver_waiters(ctx, rid):
+    """every Driver method that waits on a queue reports queue closure as Err(self.result().await)"""
+    RES = r"^return Result::Err\(await\(Driver::result\(&\*self\)\)\)$"
+    n = 0
+    for name, closed_atom in (
+        ("accept_settings", r"Receiver::recv\(.*ready_settings.*\) is None$"),
+        ("accept_session", r"BiChannelEndpoint::recv\(&\*self\.ready_sessions\)\) is None$"),
+        ("register_session", r"BiChannelEndpoint::send\(&\*self\.ready_sessions,stream_session\)\) is Err$"),
+        ("accept_uni", r"Receiver::recv\(.*ready_uni_wt_streams.*\) is None$"),
+        ("accept_bi", r"Receiver::recv\(.*ready_bi_wt_streams.*\) is None$"),
+        ("receive_datagram", r"Receiver::recv\(.*ready_datagrams.*\) is None$"),
+    ):
+        fn = ctx.A.find1(DRV % name)
+        paths = nonpanic(walk(fn))
+        hit = [p for p in paths if any(re.search(closed_atom, a) for a in path_sig(p)[0])]
+        okk = bool(hit) and all(re.match(RES, path_sig(p)[1]) for p in hit)
+        # and no other path returns Err
+        others = [p for p in paths if p not in hit and "Result::Err" in path_sig(p)[1]]
+        ctx.check(rid, "Driver::%s queue-closed" % name, okk and not others,
+                  "Driver::%s: queue closure is not mapped to Err(self.result().await): %s" % (name, [path_sig(p) for p in hit + others]), where(fn))
+        n += 1
+    for name in ("open_uni", "open_bi", "open_session"):
+        fn = ctx.A.find1(DRV % name)
+        paths = nonpanic(walk(fn))
+        hit = [p for p in paths if any(re.search(r"::open_(uni|bi)\(&\*self\.quic_connection\)\) is None$", a) for a in path_sig(p)[0])]
+        okk = bool(hit) and all(path_sig(p)[1] == "return Err(from(DriverError::NotConnected))" for p in hit)
+        ctx.check(rid, "Driver::%s none" % name, okk, "Driver::%s: failed open is not mapped to NotConnected: %s" % (name, [path_sig(p) for p in hit]), where(fn))
+    fn = ctx.A.find1(DRV % "result")
+    rows = [{"name": "result set", "atoms": [r" is Some$"], "leaf": r"^return \(await\(SharedResultGet::result\(&\*self\.driver_result\)\) as Some\)\.0$"}]
+    match_table(ctx, rid, fn, walk(fn), rows, "Driver::result")
+    ctx.floor(rid, "Driver waiters", n, 6)
+
+
+def driver_session_filters(ctx, rid, which=("accept_uni", "accept_bi", "receive_datagram")):
+    """a stream/datagram is returned only under `== session_id`; foreign ones are refused/dropped and the loop continues"""
+    spec = {
+        "accept_uni": (r"ready_uni_wt_streams", r"<impl .*?>::session_id\(&\(%s as Some\)\.0\)"),
+        "accept_bi": (r"ready_bi_wt_streams", r"<impl .*?>::session_id\(&\(%s as Some\)\.0\)"),
+        "receive_datagram": (r"ready_datagrams", r"Datagram::session_id\(&\(%s as Some\)\.0\)"),
+    }
+    for name in which:
+        q, sid = spec[name]
+        fn = ctx.A.find1(DRV % name)
+        RECV = r"await\(Receiver::recv\(&await\(Mutex::lock\(&\*self\.%s\)\)\)\)" % q
+        EQ = r"<SessionId as PartialEq>::eq\(&%s,&session_id\)" % (sid % RECV)
+        rows = [
+            {"name": "own session->returned", "atoms": [r"^%s$" % EQ], "leaf": r"^return Result::Ok\(\(%s as Some\)\.0\)$" % RECV},
+            {"name": "foreign->not returned, loop", "atoms": [r"^!%s$" % EQ], "leaf": r"^continue$"},
+            {"name": "queue closed", "atoms": [r"^%s is None$" % RECV], "leaf": r"^return Result::Err\(await\(Driver::result\(&\*self\)\)\)$"},
+        ]
+        if name != "receive_datagram":
+            rows[1]["events"] = [r"^QuicRecvStream::stop\(&.*,ErrorCode::to_code\(ErrorCode::BufferedStreamRejected\)\)$"]
+            rows[0]["not_events"] = [r"::stop\("]
+        match_table(ctx, rid, fn, walk(fn), rows, "Driver::%s" % name)
+    # SessionId equality is the derived structural one
+    imp = [i for i in ctx.A.impls if i.get("trait") == "std::cmp::PartialEq" and i["self"] == "wtransport_proto::ids::SessionId"]
+    ctx.check(rid, "SessionId: PartialEq impl unique", len(imp) == 1, "expected exactly one PartialEq impl for SessionId, found %d" % len(imp))
+    f = ctx.A.fn_opt("<wtransport_proto::ids::SessionId as std::cmp::PartialEq>::eq")
+    if f is not None:
+        ps = nonpanic(walk(f))
+        leafs = {path_sig(p)[1] for p in ps}
+        ctx.check(rid, "SessionId::eq derived", leafs == {"return <StreamId as PartialEq>::eq(&*self.0,&*other.0)"},
+                  "SessionId == is not the field-wise comparison: %s" % sorted(leafs), where(f))
+    else:
+        ctx.violation(rid, "SessionId::eq", "cannot decide: <SessionId as PartialEq>::eq not found")
+
+
+def connection_error_tables(ctx, rid):
+    A = ctx.A
+    fn = A.fn("wtransport::error::ConnectionError::with_driver_error")
+    rows = [
+        {"name": "Proto(c)->LocalH3Error(c)", "atoms": [r"^driver_error is Proto$"], "leaf": r"^return ConnectionError::local_h3_error\(\(driver_error as Proto\)\.0\)$"},
+        {"name": "ApplicationClosed(c)->ApplicationClosed(c)", "atoms": [r"^driver_error is ApplicationClosed$"], "leaf": r"^return ConnectionError::ApplicationClosed\(\(driver_error as ApplicationClosed\)\.0\)$"},
+        {"name": "NotConnected->no_connect", "atoms": [r"^driver_error is NotConnected$"], "leaf": r"^return ConnectionError::no_connect\(&\*quic_connection\)$"},
+    ]
+    match_table(ctx, rid, fn, walk(fn), rows, "ConnectionError::with_driver_error")
+    fn = A.fn("wtransport::error::ConnectionError::local_h3_error")
+    ls = [path_sig(p)[1] for p in nonpanic(walk(fn))]
+    ctx.check(rid, "local_h3_error", ls == ["return ConnectionError::LocalH3Error(H3Error(error_code))"], "local_h3_error does not wrap the given code: %s" % ls, where(fn))
+    CR = r"Connection::close_reason\(&\*quic_connection\)"
+    fn = A.fn("wtransport::error::ConnectionError::no_connect")
+    rows = [
+        {"name": "close_reason None->LocallyClosed", "atoms": [r"^%s is None$" % CR], "leaf": r"^return ConnectionError::LocallyClosed$"},
+        {"name": "close_reason Some(r)->r.into()", "atoms": [r"^%s is Some$" % CR], "leaf": r"^return \(%s as Some\)\.0$" % CR},
+    ]
+    match_table(ctx, rid, fn, walk(fn), rows, "ConnectionError::no_connect")
+    fn = A.fn("wtransport::error::ConnectingError::with_no_connection")
+    rows = [
+        {"name": "close_reason None->LocallyClosed", "atoms": [r"^%s is None$" % CR], "leaf": r"^return ConnectingError::ConnectionError\(ConnectionError::LocallyClosed\)$"},
+        {"name": "close_reason Some(r)->r.into()", "atoms": [r"^%s is Some$" % CR], "leaf": r"^return ConnectingError::ConnectionError\(\(%s as Some\)\.0\)$" % CR},
+    ]
+    match_table(ctx, rid, fn, walk(fn), rows, "ConnectingError::with_no_connection")
+    fn = A.fn("<wtransport::error::ConnectionError as std::convert::From<quinn::ConnectionError>>::from")
+    rows = [
+        {"name": "VersionMismatch", "atoms": [r"^error is VersionMismatch$"], "leaf": r"^return ConnectionError::QuicProto\(QuicProtoError\(Option::None,"},
+        {"name": "TransportError", "atoms": [r"^error is TransportError$"],
+         "leaf": r"^return ConnectionError::QuicProto\(QuicProtoError\(Result::ok\(VarInt::try_from_u64\(\(error as TransportError\)\.0\.code\)\),Cow::Owned\(\(error as TransportError\)\.0\.reason\)\)\)$"},
+        {"name": "ConnectionClosed", "atoms": [r"^error is ConnectionClosed$"], "leaf": r"^return ConnectionError::ConnectionClosed\(ConnectionClose\(\(error as ConnectionClosed\)\.0\)\)$"},
+        {"name": "ApplicationClosed(code,reason) unchanged", "atoms": [r"^error is ApplicationClosed$"],
+         "leaf": r"^return ConnectionError::ApplicationClosed\(ApplicationClose\(varint_q2w\(\(error as ApplicationClosed\)\.0\.error_code\),Vec::into_boxed_slice\(<impl \[T\]>::to_vec\(&\(error as ApplicationClosed\)\.0\.reason\)\)\)\)$"},
+        {"name": "Reset", "atoms": [r"^error is Reset$"], "leaf": r"^return ConnectionError::QuicProto\(QuicProtoError\(Option::None,"},
+        {"name": "TimedOut", "atoms": [r"^error is TimedOut$"], "leaf": r"^return ConnectionError::TimedOut$"},
+        {"name": "LocallyClosed", "atoms": [r"^error is LocallyClosed$"], "leaf": r"^return ConnectionError::LocallyClosed$"},
+        {"name": "CidsExhausted", "atoms": [r"^error is CidsExhausted$"], "leaf": r"^return ConnectionError::CidsExhausted$"},
+    ]
+    match_table(ctx, rid, fn, walk(fn), rows, "From<quinn::ConnectionError>")
